@@ -245,6 +245,14 @@ def parse_results(json_path):
                 stats["solver_calls"] += 1
             elif "VCC(s)" in t and "remaining after simplification" in t:
                 vcc = t
+                m = re.match(r"Generated (\d+) VCC\(s\), (\d+) remaining", t)
+                if m:
+                    stats["vccs_generated"] = int(m.group(1))
+                    stats["vccs_remaining"] = int(m.group(2))
+            elif t.startswith("size of program expression:"):
+                m = re.search(r"(\d+) steps", t)
+                if m:
+                    stats["ssa_steps"] = int(m.group(1))
             elif "variables" in t and "clauses" in t:
                 stats["formula"] = t
             elif "out of memory" in t.lower():
